@@ -498,7 +498,8 @@ def random_material_arrays(spec_m: dict, shape, np_dtype) -> dict:
     const_axis = spec_m.get("const_axis")
     gen_shape = list(shape)
     if const_axis is not None:
-        gen_shape[const_axis] = 1
+        for ca in (const_axis if isinstance(const_axis, (list, tuple)) else [const_axis]):
+            gen_shape[int(ca)] = 1
     gn = int(np.prod(gen_shape))
 
     def expand(a):  # (c, *gen_shape) -> (c,*shape)
